@@ -45,7 +45,9 @@ fn build(hs: &HistSeed) -> Option<(Cfg, Vec<Call>, Runner)> {
     // one image in ~100 is larger than 1 MiB (one huge datum)
     if hs.order_sel % 97 == 0 {
         if let Some(v) = r.m.alive().first().copied() {
-            let call = Call::Put(v, (0..1_300_000usize).map(|i| (i as u8) ^ (i >> 8) as u8 | 1).collect());
+            // mostly 1.3 MB, sometimes above 4 MiB
+            let huge = if (hs.order_sel / 97) % 3 == 0 { 4_400_000usize } else { 1_300_000usize };
+            let call = Call::Put(v, (0..huge).map(|i| (i as u8) ^ (i >> 8) as u8 | 1).collect());
             if r.valid(&call) {
                 r.step(&call);
                 history.push(call);
@@ -80,6 +82,14 @@ impl PrefixEngine {
     fn check(&self, cfg: Cfg, r: &Runner, only: Option<usize>) -> (Option<Failure>, u64, usize) {
         let p = tmp_file("c09");
         let fail = |kind: &str, k: usize, d: String| Failure { prop: "C09".into(), kind: kind.into(), step: k, detail: d };
+        // the target path already holds an older, longer file (a previous checkpoint): save()
+        // must replace it, so that the file IS the image
+        {
+            let probe = tmp_file("c09len");
+            let approx = r.g.save(&probe).unwrap_or(0);
+            let _ = std::fs::remove_file(&probe);
+            let _ = std::fs::write(&p, vec![0xA5u8; approx + approx / 4 + 4096]);
+        }
         let size = match catch_unwind(AssertUnwindSafe(|| r.g.save(&p))) {
             Ok(Ok(sz)) => sz,
             Ok(Err(e)) => return (Some(fail("save.error", 0, format!("save() of a reachable graph failed: {e:#}"))), 0, 0),
@@ -88,7 +98,7 @@ impl PrefixEngine {
         let bytes = std::fs::read(&p).unwrap_or_default();
         if bytes.len() != size {
             let _ = std::fs::remove_file(&p);
-            return (Some(fail("save.size", 0, format!("save() returned {size} but the file has {} bytes", bytes.len()))), 0, size);
+            return (Some(fail("save.size", 0, format!("save() returned {size} but the file has {} bytes (the path held an older, longer file before)", bytes.len()))), 0, size);
         }
         // control: the complete image loads
         match catch_unwind(AssertUnwindSafe(|| load_graph(cfg.n, &p).map(|g| g.keys()))) {
